@@ -120,7 +120,7 @@ impl Prop for C01 {
             return;
         }
         let runs = std::env::var("RLV_FUZZ_HIST_RUNS").ok().and_then(|s| s.parse::<u64>().ok()).unwrap_or(150_000);
-        let seeds: Vec<std::path::PathBuf> = std::fs::read_dir("/verif/fuzz/corpus/hist_model").map(|rd| rd.flatten().map(|e| e.path()).collect()).unwrap_or_default();
+        let seeds: Vec<std::path::PathBuf> = std::fs::read_dir(format!("{}/fuzz/corpus/hist_model", crate::runner::verif_home())).map(|rd| rd.flatten().map(|e| e.path()).collect()).unwrap_or_default();
         crate::fuzzrun::campaign("hist_model", ctx.seed, runs, 300, &seeds, rep, &|d: &[u8]| {
             Fail::new("fuzz-hist-model", format!("the cargo-fuzz target hist_model (store vs reference model in lock-step) failed on a {}-byte input", d.len()))
         });
